@@ -25,6 +25,7 @@ def templates():
         lambda: L.eq(L.hdr(0), L.term(2)), lambda: L.eq(L.hdr(1), L.term("a")),
         lambda: L.fn("not", L.hdr(1)), lambda: L.fn("empty", L.hdr(0)), lambda: L.fn("exists", L.hdr(1)),
         lambda: L.fn("yes"), lambda: L.fn("no"), lambda: L.fn("and", L.hdr(0), L.hdr(1)), lambda: L.fn("or", L.hdr(0), L.hdr(1)),
+        lambda: L.fn("and", L.hdr(0), L.fn("yes"), L.hdr(1)), lambda: L.fn("or", L.fn("no"), L.hdr(2), L.hdr(1)),
         lambda: L.when(L.hdr(0), L.fn("push", L.term("s"), L.hdr(1))),
         lambda: L.when(L.eq(L.hdr(1), L.term("a")), L.assign(L.var("v"), L.hdr(0))),
         lambda: L.when(L.fn("above", L.hdr(0), L.term(1)), L.fn("stop")),
